@@ -8,7 +8,7 @@ TITLE = "Calibration scales are the configured-momentum average of batch absmax 
 
 RULES = {
     "C12.R1": "momentum provenance: the momentum reaching every EMA update is self.momentum, whose only definition is the constructor parameter",
-    "C12.R2": "EMA term: momentum*old + (1-momentum)*new (as a polynomial identity), first batch (all(old == 1)) returns new",
+    "C12.R2": "EMA term: momentum*old + (1-momentum)*new (as a polynomial identity); the new scale alone is returned exactly when the buffer still holds the marker it was created with, and that marker is not a value a measured scale can take",
     "C12.R3": "input hook: quantized input -> torch.max(input._scale); float input -> EMA(module.input_scale, absmax_scale(input, module.activation_qtype)) stored in module.input_scale",
     "C12.R4": "output hook: raw output of module.qforward(input[0]) (dequantized), absmax_scale(., activation_qtype, axis=None), EMA with and stored to module.output_scale, then module.forward(input[0]) returned",
     "C12.R5": "absmax_scale = max|x| / StorageRange(qtype.dtype).max, per-tensor when axis is None",
@@ -101,8 +101,62 @@ def run(chk):
         s, n, m = positional_params(ema)[:3]
         ps = paths_of(ema)
         first = [p for p in ps if p.end[0] == "return" and U(p.end[1]) == n]
-        first_ok = len(first) >= 1 and all(any(a == f"torch.all({s} == 1)" and t for c, tr, _ in p.conds for a, t in atoms(c, tr)) for p in first)
-        chk.require("C12.R2", f"{emi.rel}:{ema.lineno}", first_ok, f"{ema.name}: returns the new scale exactly when torch.all({s} == 1) (uninitialised buffer)", ema.name, "first-batch initialisation", "the first batch of a calibration: scale averaged with the initial value 1")
+        rest_ = [p for p in ps if p.end[0] == "return" and p not in first]
+
+        def atoms_of(p):
+            return {(a, bool(t)) for c, tr, _ in p.conds for a, t in atoms(c, tr)}
+
+        # the atom that is true on every first-batch path and false on every averaging path
+        marker = None
+        if first and rest_:
+            common = set.intersection(*[{a for a, t in atoms_of(p) if t} for p in first]) & set.intersection(*[{a for a, t in atoms_of(p) if not t} for p in rest_])
+            marker = sorted(common)[0] if common else None
+        site2 = f"{emi.rel}:{ema.lineno}"
+        witness_first = "the first batch of a calibration: scale averaged with the initial value of the buffer"
+        if marker is None:
+            chk.bad("C12.R2", site2, ema.name, "first-batch initialisation", f"NOT: {ema.name} has a path returning the new scale alone, taken exactly when the buffer is uninitialised (first={len(first)} averaging={len(rest_)} paths, no common discriminating condition)", witness_first)
+        else:
+            import re
+            mm = re.fullmatch(r"torch\.all\((\w+) == (-?[\w.]+)\)|\((\w+) == (-?[\w.]+)\)\.all\(\)|torch\.equal\((\w+), torch\.ones_like\(\5\)\)", marker)
+            if mm and (mm.group(1) or mm.group(3) or mm.group(5)) == s:
+                k_txt = mm.group(2) or mm.group(4) or "1"
+                init_vals = initial_scale_values(repo)
+                try:
+                    k = float(k_txt)
+                except ValueError:
+                    k = None
+                if k is None or init_vals is None:
+                    chk.unknown("C12.R2", site2, f"{ema.name}: first-batch test `{marker}`: marker value or initial buffer value not a literal ({k_txt}, {init_vals})")
+                else:
+                    chk.require("C12.R2", site2, all(v == k for v in init_vals), f"{ema.name}: returns the new scale alone exactly when `{marker}`, the value the buffers are created with ({sorted(set(init_vals))})", ema.name, "first-batch initialisation", witness_first)
+                    import math
+                    legit = k > 0 and math.isfinite(k)
+                    chk.require("C12.R2", site2, not legit, f"{ema.name}: the uninitialised marker {k_txt} is not a value a measured scale can take (a scale is max|x|/qmax: any positive finite number)", ema.name, "first-batch marker is a legitimate scale value",
+                                f"a batch whose max|x| equals qmax * {k_txt} exactly (e.g. absmax 127.0 for qint8) at any step: the buffer then looks uninitialised and the next batch REPLACES the average instead of being averaged into it")
+            elif marker == s or marker.startswith(s + "."):
+                chk.unknown("C12.R2", site2, f"{ema.name}: first-batch test `{marker}` on the buffer not recognised")
+            else:
+                # a flag handed in by the hooks: where does it live?
+                flags = set()
+                for fn_ in (pre, post):
+                    local = {}
+                    for nd in ast.walk(fn_):
+                        if isinstance(nd, ast.Assign) and len(nd.targets) == 1 and isinstance(nd.targets[0], ast.Name):
+                            local.setdefault(nd.targets[0].id, []).append(nd.value)
+                    for nd in ast.walk(fn_):
+                        if isinstance(nd, ast.Call) and isinstance(nd.func, ast.Name) and nd.func.id == ema.name:
+                            b_ = bind_call(ema, nd)
+                            for prm, val in (b_ or {}).items():
+                                if prm in marker.replace("not ", "").split() or prm == marker:
+                                    vals_ = local.get(val.id, [val]) if isinstance(val, ast.Name) else [val]
+                                    flags.update(U(v_) for v_ in vals_)
+                on_self = [f_ for f_ in flags if _state_owner(ast.parse(f_, mode="eval").body) == "self"]
+                if on_self:
+                    chk.bad("C12.R2", site2, ema.name, "first-batch state kept on the Calibration object", f"NOT: the first-batch flag `{marker}` = {sorted(flags)} belongs to the modules being calibrated (it is state of the Calibration object)",
+                            "two successive Calibration contexts over the same model: the second one restarts the average from its own first batch and forgets the history")
+                else:
+                    chk.unknown("C12.R2", site2, f"{ema.name}: first-batch flag `{marker}` = {sorted(flags)}: persistence across contexts / reloads not decided")
+        first_atom = marker
         want = poly.parse(f"{m} * {s} + {n} - {m} * {n}")
         rest = [p for p in ps if p.end[0] == "return" and p not in first]
         ok = len(rest) >= 1
@@ -112,7 +166,7 @@ def run(chk):
             got_txt = U(p.end[1])
             if got != want:
                 ok = False
-            if not any(a == f"torch.all({s} == 1)" and not t for c, tr, _ in p.conds for a, t in atoms(c, tr)):
+            if first_atom is not None and not any(a == first_atom and not t for c, tr, _ in p.conds for a, t in atoms(c, tr)):
                 ok = False
         chk.require("C12.R2", f"{emi.rel}:{ema.lineno}", ok, f"{ema.name}: otherwise returns `{got_txt}` == {m}*{s} + (1-{m})*{n} as polynomials", ema.name, "EMA formula", "any second batch: the update is not the exponential moving average with the given momentum")
     # -- R3 / R6: the input hook
@@ -209,3 +263,43 @@ def absmax(chk):
         if is_none is True:
             chk.require("C12.R5", site, r.dim is None and r.reduce in ("max", "amax"), f"axis None: full reduction `{r.reduce}` without dim", "absmax_scale", "per-tensor reduction", "any batch: per-tensor scale is not the global maximum")
     chk.floor("C12.R5", n, 2, "absmax_scale return paths")
+
+
+def initial_scale_values(repo):
+    """Literal values the activation-scale buffers are registered with in QModuleMixin.__init__ (None if not literal)."""
+    ci = repo.cls("QModuleMixin")
+    init = ci.own("__init__")
+    vals = []
+    for p in paths_of(init):
+        for ef in p.effects:
+            if ef[0] == "expr" and isinstance(ef[1], ast.Call) and U(ef[1].func).endswith(".register_buffer") and len(ef[1].args) >= 2 and isinstance(ef[1].args[0], ast.Constant) and ef[1].args[0].value in ("input_scale", "output_scale"):
+                v = ef[1].args[1]
+                if isinstance(v, ast.Call) and U(v.func) in ("torch.ones", "torch.zeros"):
+                    vals.append(1.0 if U(v.func) == "torch.ones" else 0.0)
+                elif isinstance(v, ast.Call) and U(v.func) in ("torch.full", "torch.tensor") and v.args and isinstance(v.args[-1 if U(v.func) == "torch.full" else 0], ast.Constant):
+                    vals.append(float(v.args[-1 if U(v.func) == "torch.full" else 0].value))
+                else:
+                    return None
+    return vals or None
+
+
+def _state_owner(e):
+    """Leftmost name of the object whose state an expression reads (`self.m(x)` -> self, `getattr(o, 'a')` -> o, `module.f is None` -> module)."""
+    while True:
+        if isinstance(e, ast.Compare):
+            e = e.left
+        elif isinstance(e, ast.UnaryOp):
+            e = e.operand
+        elif isinstance(e, ast.BoolOp):
+            e = e.values[0]
+        elif isinstance(e, ast.Call):
+            if isinstance(e.func, ast.Name) and e.func.id in ("getattr", "hasattr", "bool") and e.args:
+                e = e.args[0]
+            else:
+                e = e.func
+        elif isinstance(e, (ast.Attribute, ast.Subscript)):
+            e = e.value
+        elif isinstance(e, ast.Name):
+            return e.id
+        else:
+            return None
